@@ -8,8 +8,8 @@ ID = "C08"
 GEN = ["fit"]
 GEN_FILES = ["Gen/Gen_fit.v"]
 PROPS = "Props/C08.v"
-COQ_CHECK = ("Model.C08", "check")
-COQ_FALLBACK = ("Model.C08", "spec_ok")
+COQ_CHECK = ("Model.C08x", "check")
+COQ_FALLBACK = ("Model.C08x", "spec_okx")
 SHARD = 150
 RULE = ("every mask of every shape with H*W <= 4 (quick) / <= 6 (thorough) x {masked-native with use_mask_in_fit, slim without} x "
         "{no sky, sky offset} x {no inversion, all objects regularized, partially regularized, none regularized} (the largest "
@@ -79,6 +79,15 @@ def fq(x):
 def fopt(x):
     x = float(x)
     return None if not math.isfinite(x) else Fraction(x)
+def cx(x):
+    """a double as an [xval]: finite / +inf / -inf / nan"""
+    x = float(x)
+    if math.isnan(x): return "XNaN"
+    if math.isinf(x): return "XPInf" if x > 0 else "XNInf"
+    return f"(XFin {cq(Fraction(x))})"
+def xl(xs): return clist([cx(x) for x in xs])
+def cpair(z): return ctup([cq(fq(z.real)), cq(fq(z.imag))])
+def cpl(zs): return clist([cpair(complex(z)) for z in zs])
 def ql(xs): return clist([cq(fq(x)) for x in xs])
 def qm(m): return clist([ql(r) for r in m])
 def qol(xs): return clist([copt(x, cq) for x in xs])
@@ -256,6 +265,55 @@ def gen_invhist(rng):
     c = gen_inv(rng, None, st2, mappers=mappers)
     return {"op": "invhist", "a": a, "F2": b["F"], "s2": b["s"], "c": c}
 
+def unit_lower(rng, n):
+    L = [[0.0] * n for _ in range(n)]
+    for i in range(n):
+        L[i][i] = 1.0
+        for j in range(i): L[i][j] = rng.choice([-1.0, -0.5, 0.0, 0.0, 0.5, 1.0])
+    return L
+def gen_cov_matrix(rng, n, noise=None):
+    """symmetric positive definite, dyadic, with a dyadic inverse: L D L^T (L unit lower triangular);
+    with probability 1/4 the diagonal matrix of the squared noise values (no correlation)"""
+    if noise is not None and rng.random() < 0.25:
+        return [[(noise[i] ** 2 if i == j else 0.0) for j in range(n)] for i in range(n)]
+    L = unit_lower(rng, n); D = [rng.choice([0.25, 0.5, 1.0, 2.0, 4.0]) for _ in range(n)]
+    return [[sum(L[i][k] * D[k] * L[j][k] for k in range(n)) for j in range(n)] for i in range(n)]
+
+def gen_cov(rng):
+    """a slim fit on a dataset with a noise covariance matrix, given directly or through apply_mask of a full dataset"""
+    h, w = rng.randint(1, 4), rng.randint(1, 3)
+    p = rng.choice([0.0, 0.3, 0.6])
+    bits = [1 if rng.random() < p else 0 for _ in range(h * w)]
+    bits[rng.randrange(h * w)] = 0      # at least one fitted pixel (an empty covariance matrix cannot be inverted)
+    route = rng.choice(["direct", "direct", "apply_mask"])
+    sky = rng.choice([0.0] + SKIES)
+    base = gen_fit(rng, h, w, bits, "slim", sky, rng.choice(["noinv", "noinv", "all", "partial"]), "imaging",
+                   route="apply_mask" if route == "apply_mask" else "fresh", geom=rng.randint(0, 3))
+    n = h * w if route == "apply_mask" else bits.count(0)
+    noise = base["noise"] if route == "apply_mask" else [x for x, b in zip(base["noise"], bits) if not b]
+    return {"op": "cov", "base": base, "C": gen_cov_matrix(rng, n, noise), "model2": [rnd_val(rng) for _ in range(h * w)]}
+
+def cval(rng): return complex(rnd_val(rng), rnd_val(rng))
+def gen_vis(rng):
+    n = rng.randint(1, 6)
+    e = rng.choice([0, 0, 0, -40, 40]); en = rng.choice([0, 0, 0] + NOISE_SCALES)
+    z = lambda c: [c.real * 2.0 ** e, c.imag * 2.0 ** e]
+    special = rng.choice([None, None, None, "zero_residual", "zero_data"])
+    d = [cval(rng) for _ in range(n)]
+    if special == "zero_data": d = [0j] * n
+    m = [cval(rng) for _ in range(n)] if special != "zero_residual" else list(d)
+    edits = []
+    for _ in range(rng.randint(1, 2)):
+        which = rng.choice(["data", "noise", "model"]); k = rng.randrange(n)
+        v = [rng.choice(NOISE) * 2.0 ** en, rng.choice(NOISE) * 2.0 ** en] if which == "noise" else z(cval(rng))
+        edits.append([which, k, v])
+    order = ["residual", "normres", "chimap", "chi2", "redchi2", "nn", "ll", "llreg", "evidence", "fom", "snr"]
+    rng.shuffle(order)
+    return {"op": "vis", "use_mask": bool(rng.randint(0, 1)), "data": [z(c) for c in d], "model": [z(c) for c in m],
+            "noise": [[rng.choice(NOISE) * 2.0 ** en, rng.choice(NOISE) * 2.0 ** en] for _ in range(n)],
+            "inv": None if rng.random() < 0.5 else gen_inv(rng, rng.choice(["all", "partial", "none"])),
+            "edits": edits, "model2": [z(cval(rng)) for _ in range(n)], "order": order}
+
 def gen_inputs(tier, rng):
     big = tier == "thorough"
     vias = ["imaging", "imaging", "fitdataset"]
@@ -301,6 +359,17 @@ def gen_inputs(tier, rng):
                "data": [(0.0 if rng.random() < 0.1 else rnd_val(rng) * 2.0 ** e) for _ in range(n)],
                "noise": [rng.choice(NOISE) for _ in range(n)], "model": [rnd_val(rng) * 2.0 ** e for _ in range(n)],
                "wrap": bool(two_d and rng.random() < 0.4)}
+    # ---- noise covariance, interferometer (complex) fits, the complex / covariance fit_util functions on ndarrays
+    for _ in range(600 if big else 60): yield gen_cov(rng)
+    for _ in range(600 if big else 60): yield gen_vis(rng)
+    for _ in range(400 if big else 40):
+        n = rng.randint(0, 6); e = rng.choice([0, 0, -40, 40])
+        yield {"op": "utilc", "r": [[rnd_val(rng) * 2.0 ** e, rnd_val(rng) * 2.0 ** e] for _ in range(n)],
+               "n": [[rng.choice(NOISE), rng.choice(NOISE)] for _ in range(n)]}
+    for _ in range(400 if big else 40):
+        n = rng.randint(1, 5); e = rng.choice([0, 0, -40, 40])
+        yield {"op": "utilcov", "r": [rnd_val(rng) * 2.0 ** e for _ in range(n)],
+               "Ci": [[rng.randint(-8, 8) / 4.0 for _ in range(n)] for _ in range(n)]}
     for _ in range(300 if big else 40):
         yield {"op": "compose", "a": [rng.randint(-4000, 4000) / 16.0 for _ in range(5)]}
 
@@ -533,7 +602,11 @@ def fit_case(snap, use_mask, sky, ivd, o):
            f"{cres(rc, lambda v: cq(fq(v)))} {cq(fq(o['nn']))} {cq(fq(o['ll']))} {copt(o['llreg'], lambda v: cq(fq(v)))} "
            f"{copt(o['evidence'], lambda v: cq(fq(v)))} {copt(o['fom'], lambda v: cq(fq(v)))} "
            f"{qol([fopt(x) for x in o['rff']])} {qol([fopt(x) for x in o['snr']])})")
-    coq = f"(KFit {ctbl(tbl)} TP {f} {out})"
+    # the same for a negative zero in a denominator of the residual flux fraction (never generated; derived arrays only)
+    xrff = list(o["rff"])
+    for i, x in enumerate(fd):
+        if x == 0.0 and math.copysign(1.0, x) < 0 and i < len(xrff) and math.isinf(xrff[i]): xrff[i] = -xrff[i]
+    coq = f"(KFitX {ctbl(tbl)} TP {f} {out} {xl(xrff)} {xl(o['snr'])})"
     py_ok = True; detail = []
     if all(x > 0 for x in fitted_noise):
         S = Fraction(sky)
@@ -661,7 +734,7 @@ def inv_case(iv, o):
     tbl = ln_table([], (dfh, dh))
     out = (f"(Build_invout {clist([cnat(x) for x in o['noreg']])} {qm(o['H'])} {qm(o['FH'])} {qm(o['Hred'])} {qm(o['FHred'])} "
            f"{ql(o['sred'])} {cq(fq(o['regterm']))} {cq(fq(o['ldc']))} {cq(fq(o['ldr']))})")
-    coq = f"(KInv {ctbl(tbl)} {cinv(iv)} {out})"
+    coq = f"(K0 (KInv {ctbl(tbl)} {cinv(iv)} {out}))"
     py_ok = True; detail = []
     if reg:
         for k, d in (("ldc", dfh), ("ldr", dh)):
@@ -736,6 +809,7 @@ def run_util(inp):
         o["nnw"] = float(fu.noise_normalization_with_mask_from(noise_map=n, mask=mask))
         o["rff"] = flat(fu.residual_flux_fraction_map_from(residual_map=np.asarray(r), data=np.asarray(d)))
         o["rffw"] = flat(fu.residual_flux_fraction_map_with_mask_from(residual_map=np.asarray(rw), data=np.asarray(d), mask=mask))
+        o["rffx"] = flat(fu.residual_flux_fraction_map_with_mask_from(residual_map=np.asarray(r), data=np.asarray(d), mask=mask))
         # the intermediate maps are inputs of later calls: they must not have been modified by them
         kept = flat(r) == o["res"] and flat(rw) == o["resw"] and flat(cm) == o["cmap"] and flat(cmw) == o["cmapw"]
     after = [np.asarray(x) for x in (d, n, m, mask)]
@@ -744,12 +818,13 @@ def run_util(inp):
     out = (f"(Build_utilout {ql(o['res'])} {ql(o['nres'])} {ql(o['cmap'])} {cq(fq(o['chi2']))} {cq(fq(o['nn']))} "
            f"{ql(o['resw'])} {ql(o['nresw'])} {ql(o['cmapw'])} {cq(fq(o['chi2w']))} {cq(fq(o['fast']))} {cq(fq(o['nnw']))} "
            f"{qol([fopt(x) for x in o['rff']])} {qol([fopt(x) for x in o['rffw']])})")
-    coq = (f"(KUtil {ctbl(tbl)} TP {clist([cbool(b) for b in inp['mask']])} {ql(inp['data'])} "
-           f"{ql(inp['noise'])} {ql(inp['model'])} {out})")
+    coq = (f"(K0 (KUtil {ctbl(tbl)} TP {clist([cbool(b) for b in inp['mask']])} {ql(inp['data'])} "
+           f"{ql(inp['noise'])} {ql(inp['model'])} {out}))")
+    extra = [f"(KUtilX {ql(o['res'])} {ql(inp['data'])} {clist([cbool(b) for b in inp['mask']])} {xl(o['rff'])} {xl(o['rffx'])})"]
     nn = sum(math.log(2 * math.pi * x * x) for x in inp["noise"])
     nnw = sum(math.log(2 * math.pi * x * x) for x, b in zip(inp["noise"], inp["mask"]) if not b)
     py_ok = rel_close(o["nn"], nn) and rel_close(o["nnw"], nnw) and unchanged
-    return {"coq": coq, "out": o, "py_ok": py_ok, "nontrivial": True, "kind": "util/" + ("array2d" if inp.get("wrap") else f"{len(shape)}d"),
+    return {"coq": coq, "extra_coq": extra, "out": o, "py_ok": py_ok, "nontrivial": True, "kind": "util/" + ("array2d" if inp.get("wrap") else f"{len(shape)}d"),
             "detail": None if py_ok else ("a fit_util function modified one of its arguments in place" if not unchanged
                                           else f"noise normalization {o['nn']} / {o['nnw']} vs {nn} / {nnw}")}
 
@@ -761,13 +836,210 @@ def run_compose(inp):
     ev = fu.log_evidence_from(chi_squared=chi, regularization_term=reg, log_curvature_regularization_term=ldc,
                               log_regularization_term=ldr, noise_normalization=nn)
     o = [float(ll), float(llr), float(ev)]
-    coq = f"(KCompose {' '.join(cq(frac(x)) for x in inp['a'])} ({cq(fq(o[0]))}, {cq(fq(o[1]))}, {cq(fq(o[2]))}))"
+    coq = f"(K0 (KCompose {' '.join(cq(frac(x)) for x in inp['a'])} ({cq(fq(o[0]))}, {cq(fq(o[1]))}, {cq(fq(o[2]))})))"
     return {"coq": coq, "out": o, "py_ok": None, "nontrivial": False, "kind": "compose"}
+
+# ---- noise covariance
+def fsolve(C, r):
+    """exact solution x of C x = r (Fractions)"""
+    n = len(r)
+    A = [[Fraction(x) for x in row] + [Fraction(b)] for row, b in zip(C, r)]
+    for c in range(n):
+        p = next(i for i in range(c, n) if A[i][c] != 0)
+        A[c], A[p] = A[p], A[c]
+        for i in range(n):
+            if i != c and A[i][c] != 0:
+                f = A[i][c] / A[c][c]
+                A[i] = [a - f * b for a, b in zip(A[i], A[c])]
+    return [A[i][n] / A[i][i] for i in range(n)]
+
+def run_cov(inp):
+    c = classes(); aa = c["aa"]
+    base = inp["base"]; h, w = base["shape"]; geom = base.get("geom", 0)
+    maskarr = np.array(base["mask"], dtype=bool).reshape((h, w))
+    V = {k: np.array(base[k], dtype=float).reshape((h, w)) for k in ("data", "noise", "model")}
+    C = np.array(inp["C"], dtype=float)
+    mask = make_mask(aa, maskarr, geom)
+    if base.get("route") == "apply_mask":
+        ps, origin = GEOMS[geom]
+        full = aa.Imaging(data=aa.Array2D.no_mask(V["data"].copy(), pixel_scales=ps, origin=origin),
+                          noise_map=aa.Array2D.no_mask(V["noise"].copy(), pixel_scales=ps, origin=origin),
+                          noise_covariance_matrix=C, check_noise_map=False)
+        dataset = full.apply_mask(mask=mask)
+    else:
+        dataset = aa.Imaging(data=make_array(aa, mask, maskarr, V["data"], "slim", "fresh"),
+                             noise_map=make_array(aa, mask, maskarr, V["noise"], "slim", "fresh"), noise_covariance_matrix=C)
+    inv = None if base["inv"] is None else make_inv(base["inv"])
+    coqs, outs, detail = [], [], []; py_ok = True
+    models = [make_array(aa, mask, maskarr, V["model"], "slim", "fresh"),
+              make_array(aa, mask, maskarr, np.array(inp["model2"], dtype=float).reshape((h, w)), "slim", "fresh")]
+    for tag, model in (("first fit", models[0]), ("second fit on the same dataset", models[1])):
+        env = {"dataset": dataset, "model": model, "use_mask": False, "native": False}
+        fit = make_fit(env, "imaging", base["sky"], inv)
+        before = snapshot(dataset, model); Cb = np.array(dataset.noise_covariance_matrix, copy=True)
+        o = {"chi2": float(fit.chi_squared), "redchi2": list(call_res(lambda: float(fit.reduced_chi_squared))),
+             "ll": float(fit.log_likelihood)}
+        for k, a in (("llreg", "log_likelihood_with_regularization"), ("evidence", "log_evidence"), ("fom", "figure_of_merit")):
+            v = getattr(fit, a); o[k] = None if v is None else float(v)
+        o["residual"] = flat(fit.residual_map)
+        Ci = np.array(dataset.noise_covariance_matrix_inv, dtype=float)
+        o["cinv"] = [flat(r) for r in Ci]
+        after = snapshot(dataset, model)
+        ch = snapshot_changed(before, after) + ([] if np.array_equal(Cb, dataset.noise_covariance_matrix) else ["noise_covariance_matrix"])
+        if ch: py_ok = False; detail.append(f"[{tag}] reading the fit modified the caller's " + ", ".join(ch) + " in place")
+        d, nz, m = flat(before["data"]), flat(before["noise"]), flat(before["model"])
+        bits = [int(b) for b in before["mask"].ravel()]
+        dets = ()
+        if base["inv"] is not None:
+            _, dfh, dh, _, _ = inv_tables(base["inv"]); dets = (dfh, dh)
+        tbl = ln_table(nz, dets)
+        f = (f"(Build_fit Q {clist([cbool(b) for b in bits])} false {cq(frac(base['sky']))} {ql(d)} {ql(nz)} {ql(m)} "
+             f"{'None' if base['inv'] is None else '(Some ' + cinv(base['inv']) + ')'})")
+        out = (f"(Build_covout {qm(o['cinv'])} {cq(fq(o['chi2']))} {cres(tuple(o['redchi2']), lambda v: cq(fq(v)))} {cq(fq(o['ll']))} "
+               f"{copt(o['llreg'], lambda v: cq(fq(v)))} {copt(o['evidence'], lambda v: cq(fq(v)))} {copt(o['fom'], lambda v: cq(fq(v)))})")
+        coqs.append(f"(KCov {ctbl(tbl)} TP {f} {qm(Cb)} {out})"); outs.append(o)
+        # Python side: chi-squared against the EXACT solution of C x = r (no inverse involved)
+        S = Fraction(base["sky"])
+        r = [(Fraction(a) - S) - Fraction(b) for a, b in zip(d, m)]
+        want = float(sum(a * b for a, b in zip(r, fsolve(Cb.tolist(), r)))) if r else 0.0
+        if not (math.isfinite(o["chi2"]) and abs(o["chi2"] - want) <= 1e-9 * abs(want)):
+            py_ok = False; detail.append(f"[{tag}] chi2: implementation {o['chi2']}, r^T C^-1 r = {want}")
+    return {"coq": coqs[0], "extra_coq": coqs[1:], "out": outs, "py_ok": py_ok, "nontrivial": True,
+            "detail": "; ".join(detail) or None, "kind": "cov/" + base.get("route", "direct") + ("/inv" if inv is not None else "")}
+
+# ---- interferometer
+def vis_classes():
+    c = classes()
+    if "HFitInterferometer" not in c:
+        from autoarray.fit.fit_interferometer import FitInterferometer
+        class HFitInterferometer(FitInterferometer):
+            def __init__(self, dataset, model_data, inversion=None, **kw):
+                super().__init__(dataset=dataset, **kw); self._m = model_data; self._i = inversion
+            @property
+            def model_data(self): return self._m
+            @property
+            def inversion(self): return self._i
+        class NoTransformer:
+            """the fit statistics never use the transformer (pylops is not installed: the production classes cannot be built)"""
+            def __init__(self, uv_wavelengths, real_space_mask): pass
+        c.update(HFitInterferometer=HFitInterferometer, NoTransformer=NoTransformer)
+    return c
+
+def zc(p): return complex(p[0], p[1])
+def observe_vis(fit, order=None):
+    o = {}
+    z = lambda a: [[float(x.real), float(x.imag)] for x in np.asarray(a, dtype=complex).ravel()]
+    for k in (order or ["residual", "normres", "chimap", "chi2", "redchi2", "nn", "ll", "llreg", "evidence", "fom", "snr"]):
+        if k == "residual": o[k] = z(fit.residual_map)
+        elif k == "normres": o[k] = z(fit.normalized_residual_map)
+        elif k == "chimap": o[k] = z(fit.chi_squared_map)
+        elif k == "chi2": o[k] = float(fit.chi_squared)
+        elif k == "redchi2": o[k] = list(call_res(lambda: float(fit.reduced_chi_squared)))
+        elif k == "nn": o[k] = float(fit.noise_normalization)
+        elif k == "ll": o[k] = float(fit.log_likelihood)
+        elif k in ("llreg", "evidence", "fom"):
+            v = getattr(fit, {"llreg": "log_likelihood_with_regularization", "evidence": "log_evidence", "fom": "figure_of_merit"}[k])
+            o[k] = None if v is None else float(v)
+        elif k == "snr":
+            with np.errstate(all="ignore"): o[k] = z(fit.signal_to_noise_map)
+    return o
+
+def vis_case(use_mask, d, nz, m, ivd, o):
+    dets = ()
+    if ivd is not None:
+        _, dfh, dh, _, _ = inv_tables(ivd); dets = (dfh, dh)
+    tbl = ln_table([x.real for x in nz] + [x.imag for x in nz], dets)
+    v = f"(Build_vfit Q {cbool(use_mask)} {cpl(d)} {cpl(nz)} {cpl(m)} {'None' if ivd is None else '(Some ' + cinv(ivd) + ')'})"
+    pl = lambda zs: clist([ctup([cq(fq(a)), cq(fq(b))]) for a, b in zs])
+    out = (f"(Build_visout {pl(o['residual'])} {pl(o['normres'])} {pl(o['chimap'])} {cq(fq(o['chi2']))} "
+           f"{cres(tuple(o['redchi2']), lambda x: cq(fq(x)))} {cq(fq(o['nn']))} {cq(fq(o['ll']))} {copt(o['llreg'], lambda x: cq(fq(x)))} "
+           f"{copt(o['evidence'], lambda x: cq(fq(x)))} {copt(o['fom'], lambda x: cq(fq(x)))} "
+           f"{clist([ctup([cx(a), cx(b)]) for a, b in o['snr']])})")
+    coq = f"(KVis {ctbl(tbl)} TP {v} {out})"
+    # Python side: the definitions over the 2 n real components, ln by math.log
+    comp = lambda zs: [Fraction(x.real) for x in zs] + [Fraction(x.imag) for x in zs]
+    D, N, M = comp(d), comp(nz), comp(m)
+    chi = sum(((a - b) / c) ** 2 for a, b, c in zip(D, M, N))
+    nn = sum(flog(Fraction(TWO_PI) * c * c) for c in N)
+    want = {"chi2": float(chi), "nn": nn, "ll": -0.5 * (float(chi) + nn)}
+    detail = []
+    for k, w in want.items():
+        if not (math.isfinite(o[k]) and rel_close(o[k], w)): detail.append(f"{k}: implementation {o[k]}, definition {w}")
+    return coq, not detail, detail
+
+def run_vis(inp):
+    """FitInterferometer on a real Interferometer dataset: read; the user edits visibilities in place; re-read (other order);
+    a second fit object (other model) on the same dataset"""
+    c = vis_classes(); aa = c["aa"]
+    n = len(inp["data"])
+    data = aa.Visibilities(visibilities=np.array([zc(p) for p in inp["data"]], dtype=complex))
+    noise = aa.VisibilitiesNoiseMap(visibilities=np.array([zc(p) for p in inp["noise"]], dtype=complex))
+    model = aa.Visibilities(visibilities=np.array([zc(p) for p in inp["model"]], dtype=complex))
+    ds = aa.Interferometer(data=data, noise_map=noise, uv_wavelengths=np.array([[float(k), 1.0] for k in range(n)]),
+                           real_space_mask=aa.Mask2D.all_false(shape_native=(2, 2), pixel_scales=1.0), transformer_class=c["NoTransformer"])
+    inv = None if inp["inv"] is None else make_inv(inp["inv"])
+    fit = c["HFitInterferometer"](ds, model, inversion=inv, use_mask_in_fit=inp["use_mask"])
+    coqs, outs, detail = [], [], []; py_ok = True
+    snap = lambda mo: [np.array(np.asarray(x), dtype=complex, copy=True) for x in (ds.data, ds.noise_map, mo)]
+    def step(tag, ft, mo, order=None):
+        nonlocal py_ok
+        b = snap(mo); o = observe_vis(ft, order); a = snap(mo)
+        coq, ok, det = vis_case(inp["use_mask"], b[0], b[1], b[2], inp["inv"], o)
+        coqs.append(coq); outs.append(o)
+        if not all(np.array_equal(x, y) for x, y in zip(a, b)):
+            ok = False; det.append("reading the fit modified the caller's visibilities in place")
+        if not ok: py_ok = False; detail.extend(f"[{tag}] {x}" for x in det)
+        return o
+    o1 = step("first read", fit, model)
+    bad = same_out(o1, observe_vis(fit, inp["order"]))
+    if bad: py_ok = False; detail.append("[re-read] a second read of the same fit object (other order) differs in " + ", ".join(bad))
+    for which, k, v in inp["edits"]:
+        {"data": ds.data, "noise": ds.noise_map, "model": model}[which][k] = zc(v)
+    step("read after in-place edits", fit, model, inp["order"])
+    model2 = aa.Visibilities(visibilities=np.array([zc(p) for p in inp["model2"]], dtype=complex))
+    fit2 = c["HFitInterferometer"](ds, model2, inversion=inv, use_mask_in_fit=not inp["use_mask"])
+    b = snap(model2); o = observe_vis(fit2)
+    coq, ok, det = vis_case(not inp["use_mask"], b[0], b[1], b[2], inp["inv"], o)
+    coqs.append(coq); outs.append(o)
+    if not ok: py_ok = False; detail.extend(f"[second fit object on the same dataset] {x}" for x in det)
+    return {"coq": coqs[0], "extra_coq": coqs[1:], "out": outs, "py_ok": py_ok, "nontrivial": True,
+            "detail": "; ".join(detail) or None, "kind": "vis/" + ("mask" if inp["use_mask"] else "nomask") + ("/inv" if inv is not None else "")}
+
+def run_utilc(inp):
+    from autoarray.fit import fit_util as fu
+    r = np.array([zc(p) for p in inp["r"]], dtype=complex); n = np.array([zc(p) for p in inp["n"]], dtype=complex)
+    rb, nb = r.copy(), n.copy()
+    z = lambda a: [[float(x.real), float(x.imag)] for x in np.asarray(a, dtype=complex).ravel()]
+    o = {}
+    o["nres"] = z(fu.normalized_residual_map_complex_from(residual_map=r, noise_map=n))
+    cm = fu.chi_squared_map_complex_from(residual_map=r, noise_map=n)
+    o["cmap"] = z(cm); o["chi2"] = float(fu.chi_squared_complex_from(chi_squared_map=cm))
+    o["nn"] = float(fu.noise_normalization_complex_from(noise_map=n))
+    unchanged = np.array_equal(r, rb) and np.array_equal(n, nb) and z(cm) == o["cmap"]
+    tbl = ln_table([x.real for x in n] + [x.imag for x in n])
+    pl = lambda zs: clist([ctup([cq(fq(a)), cq(fq(b))]) for a, b in zs])
+    coq = f"(KUtilC {ctbl(tbl)} TP {cpl(r)} {cpl(n)} (Build_cutilout {pl(o['nres'])} {pl(o['cmap'])} {cq(fq(o['chi2']))} {cq(fq(o['nn']))}))"
+    nn = sum(math.log(2 * math.pi * x * x) for p in inp["n"] for x in p)
+    py_ok = rel_close(o["nn"], nn) and unchanged
+    return {"coq": coq, "out": o, "py_ok": py_ok, "nontrivial": True, "kind": "utilc",
+            "detail": None if py_ok else ("a fit_util function modified one of its arguments in place" if not unchanged
+                                          else f"noise normalization {o['nn']} vs {nn}")}
+
+def run_utilcov(inp):
+    from autoarray.fit import fit_util as fu
+    r = np.array(inp["r"], dtype=float); Ci = np.array(inp["Ci"], dtype=float)
+    rb, Cb = r.copy(), Ci.copy()
+    chi = float(fu.chi_squared_with_noise_covariance_from(residual_map=r, noise_covariance_matrix_inv=Ci))
+    unchanged = np.array_equal(r, rb) and np.array_equal(Ci, Cb)
+    coq = f"(KUtilCov {ql(inp['r'])} {qm(inp['Ci'])} {cq(fq(chi))})"
+    return {"coq": coq, "out": chi, "py_ok": unchanged, "nontrivial": True, "kind": "utilcov",
+            "detail": None if unchanged else "a fit_util function modified one of its arguments in place"}
 
 _COUNTS = {"impl_exceptions": 0}
 def run_case(inp):
     op = inp["op"]
-    f = {"fit": run_fit, "inv": run_inv, "util": run_util, "compose": run_compose, "hist": run_hist, "invhist": run_invhist}[op]
+    f = {"fit": run_fit, "inv": run_inv, "util": run_util, "compose": run_compose, "hist": run_hist, "invhist": run_invhist,
+         "cov": run_cov, "vis": run_vis, "utilc": run_utilc, "utilcov": run_utilcov}[op]
     try:
         return f(inp)
     except Exception as e:   # the implementation refused an in-scope input: reported as a failing case
